@@ -262,6 +262,46 @@ fn enc_stream(driver: &Driver, seed: u64, k: K, short: bool, n: u64) -> Stream {
     st
 }
 
+/// weezl's LZW encoder (as `lzw_encode` drives it) must emit a *conforming* stream: the driver's sound
+/// membership test for the encoder relation of Spec/Lzw.lean (EarlyChange 0) has to accept it. This is the
+/// obligation `hlzw` of the theorem `decode_encode`; it does not ask for the greedy instance's bytes.
+fn lzw_encode_stream(driver: &Driver, seed: u64, n_short: u64, n_long: u64) -> Stream {
+    let mut st = Stream::new("c16.lzw.encode", true);
+    let f = StreamFilter::LZWDecode(lzw_params(0));
+    let mut inputs: Vec<Vec<u8>> = vec![vec![]];
+    for a in 0..=255u8 { inputs.push(vec![a]); }
+    for a in (0..=255u8).step_by(5) { for b in (0..=255u8).step_by(51) { inputs.push(vec![a, b]); inputs.push(vec![a, a, b]); inputs.push(vec![a, a, a, a]); } }
+    for case in 0..(n_short + n_long) {
+        let mut rng = Rng::derive(seed, "c16.lzw.encode", case);
+        inputs.push(crate::c05::lzw_payload(&mut rng, case >= n_short));
+    }
+    let mut reqs = vec![];
+    let mut imps = vec![];
+    let mut nontrivial = vec![];
+    let encoded = crate::c05::par_map(&inputs, &|x: &Vec<u8>| enc::encode(x, &f).ok());
+    for (x, e) in inputs.iter().zip(encoded.into_iter()) {
+        match e {
+            Some(e) => {
+                st.count(match x.len() { 0 => "len=0", 1..=4 => "len=1-4", 5..=300 => "len=5-300", _ => "len>2000 (code widths 9-12, table reset)" });
+                reqs.push(format!("c05.lzwconf 0 {} {}", hex(x), hex(&e)));
+                imps.push("1".to_string());
+                nontrivial.push(x.len() >= 2);
+            }
+            None => {
+                st.count("encode=err");
+                reqs.push(format!("c05.lzwconf 0 {} -", hex(x)));
+                imps.push("encode returned an error".to_string());
+                nontrivial.push(true);
+            }
+        }
+    }
+    let resp = driver.ask(&reqs);
+    for (((rq, m), i), nt) in reqs.iter().zip(resp.iter()).zip(imps.iter()).zip(nontrivial.iter()) {
+        st.case(rq, m, i, *nt);
+    }
+    st
+}
+
 /// `encode` dispatch: the filters without an encoder report an error, LZW with EarlyChange ≠ 0 too
 fn dispatch_stream(driver: &Driver, seed: u64, n: u64) -> Stream {
     let mut st = Stream::new("c16.dispatch", true);
@@ -322,6 +362,7 @@ pub fn run(driver: &Driver, seed: u64, thorough: bool, replay: Option<&Value>) -
         rep.streams.push(enc_stream(driver, seed, k, false, if thorough { 40_000 } else { 2_000 }));
     }
     rep.streams.push(dispatch_stream(driver, seed, if thorough { 20_000 } else { 1_500 }));
+    rep.streams.push(lzw_encode_stream(driver, seed, if thorough { 4000 } else { 400 }, if thorough { 1200 } else { 40 }));
     rep.oracles.push(roundtrip_oracle(seed, thorough, None));
     rep
 }
